@@ -20,7 +20,9 @@ RULE = ('exhaustive: all strings of length <= 5 (quick) / <= 6 (thorough) over a
         'space, kept only when no known name occurs across an operand boundary; non-trivial = the string is valid and '
         'has at least one operator; distinct by text')
 ASSUMPTIONS = ['final-sigma context of str.lower() is not modelled; generated texts whose per-character lower-casing '
-               'differs from str.lower() are skipped and counted']
+               'differs from str.lower() are skipped and counted',
+               'where a name ending in an operator word starts on the last word of a longer, earlier name, the longer name is '
+               'the one recognised (selection rule of C17) and the operator word is read as an operator']
 
 
 def run(rep, tier, seed):
@@ -125,6 +127,36 @@ def run(rep, tier, seed):
                 continue
             reqs.append((4, [enc_table(T), 0, 0, 0, enc_str(text)]))
             metas.append((T, Lt, text, tree))
+    # a name ending in an operator word that starts on the last word of a longer name: in "K op x" the longer,
+    # earlier name K is the one kept (the selection rule of C17), so the operator word is an operator
+    for _ in range(fam):
+        a, b, c, d = rng.sample(wp, 4)
+        op = rng.choice(['or', 'and', 'with'])
+        K = ' '.join([a, b, c])
+        T = [(K, [], False), ('%s %s' % (c, op), [], False), ('mit', [], False)]
+        if not gen.table_ok(T):
+            continue
+        try:
+            Lt = make_licensing(T)
+        except ValueError:
+            continue
+        vk = gen.vary_name(rng, K)
+        other0 = rng.choice(['mit', d, 'zz'])
+        vo = gen.vary_case(rng, other0)
+        okey = 'mit' if other0 == 'mit' else vo
+        vop = gen.vary_case(rng, op)
+        KK = [0, [0, [enc_str(K), 0]]]
+        Q = [0, [0, [enc_str(okey), 0]]]
+        if op == 'with':
+            tree = [0, [1, [enc_str(K), 0], [enc_str(okey), 0]]]
+        else:
+            tree = [1 if op == 'and' else 2, [KK, Q]]
+        text = vk + gen.gen_ws(rng, 1, 2) + vop + gen.gen_ws(rng, 1, 2) + vo
+        if ''.join(ch.lower() for ch in text) != text.lower():
+            continue
+        rep.count('family_name_ending_in_operator')
+        reqs.append((4, [enc_table(T), 0, 0, 0, enc_str(text)]))
+        metas.append((T, Lt, text, tree))
     res = run_model(reqs)
     for (T, Lt, text, tree), r in zip(metas, res):
         got = parsing.parse_outcome(Lt, text)
